@@ -642,6 +642,43 @@ func phiEdgeFrom(cond ssa.Value, b, pred *ssa.BasicBlock, branch bool) (ssa.Valu
 // edgeOpen: the branch edge of ifi (taken when its condition == branch) is feasible on entry
 // from pred and does not establish g.
 func edgeOpen(ifi *ssa.If, b, pred *ssa.BasicBlock, branch bool, g Guard) bool {
+	// the edge is cut when the condition establishes G as written (a guard on a loop counter names the
+	// phi itself), or when it does with the phis of this block replaced by the values they have on
+	// entry from pred
+	if !edgeOpen0(ifi, b, pred, branch, g, false) {
+		return false
+	}
+	return edgeOpen0(ifi, b, pred, branch, g, true)
+}
+
+func edgeOpen0(ifi *ssa.If, b, pred *ssa.BasicBlock, branch bool, g Guard, resolvePhis bool) bool {
+	// on entry from pred, a phi of this block is the value that edge carries: a comparison of such
+	// a phi (err := phi(helperA(), helperB()); if err != nil) is a comparison of that value
+	if pred != nil && resolvePhis {
+		pi := -1
+		for i, p := range b.Preds {
+			if p == pred {
+				if pi >= 0 {
+					pi = -2 // the same predecessor twice (both arms of a branch): ambiguous
+					break
+				}
+				pi = i
+			}
+		}
+		if pi >= 0 {
+			outer := curResolver
+			curResolver = func(v ssa.Value) ssa.Value {
+				if phi, ok := v.(*ssa.Phi); ok && phi.Block() == b && pi < len(phi.Edges) {
+					v = phi.Edges[pi]
+				}
+				if outer != nil {
+					return outer(v)
+				}
+				return v
+			}
+			defer func() { curResolver = outer }()
+		}
+	}
 	cond := ifi.Cond
 	for depth := 0; depth < 4; depth++ {
 		if cb, ok := constBool(cond); ok {
@@ -1347,4 +1384,55 @@ func noMarker(ssa.Instruction) bool { return false }
 // reachInstrAvoiding: instruction-granular variant of reachAvoiding.
 func reachInstrAvoiding(fn *ssa.Function, at ssa.Instruction, g Guard) bool {
 	return reachFromWithoutMarkerAvoiding(fn.Blocks[0], at, noMarker, g)
+}
+
+// localVal: the value a single-assignment local holds: a load of a local that is stored exactly
+// once (also when a closure captures it), or, inside a closure, a load of a captured variable of the
+// enclosing function that is stored exactly once there. Anything else is returned unchanged.
+func localVal(v ssa.Value) ssa.Value {
+	for i := 0; i < 3; i++ {
+		u, ok := v.(*ssa.UnOp)
+		if !ok || u.Op != token.MUL {
+			return v
+		}
+		var al *ssa.Alloc
+		switch x := u.X.(type) {
+		case *ssa.Alloc:
+			al = x
+		case *ssa.FreeVar:
+			fn := x.Parent()
+			idx := -1
+			for j, fv := range fn.FreeVars {
+				if fv == x {
+					idx = j
+				}
+			}
+			if par := fn.Parent(); par != nil && idx >= 0 {
+				for _, b := range par.Blocks {
+					for _, in := range b.Instrs {
+						if mc, isMC := in.(*ssa.MakeClosure); isMC && mc.Fn == ssa.Value(fn) && idx < len(mc.Bindings) {
+							al, _ = mc.Bindings[idx].(*ssa.Alloc)
+						}
+					}
+				}
+			}
+		}
+		if al == nil {
+			return v
+		}
+		sts := storesTo(al)
+		if len(sts) != 1 {
+			return v
+		}
+		// no other writer: the address is only loaded, stored to once, or captured
+		for _, r := range *al.Referrers() {
+			switch r.(type) {
+			case *ssa.UnOp, *ssa.Store, *ssa.MakeClosure, *ssa.DebugRef:
+			default:
+				return v
+			}
+		}
+		v = strip(sts[0].Val)
+	}
+	return v
 }
